@@ -1,2 +1,102 @@
+/* jws.* operations: lib/jws.c through the public API */
 #include "hx.h"
-const op_t ops_jws[] = { { NULL, NULL } };
+#include <jose/jws.h>
+#include <jose/io.h>
+
+/* jws.ver {jws, sig?, jwk, all} */
+static json_t *
+op_ver(json_t *args)
+{
+    bool r = jose_jws_ver(NULL, hx_arg(args, "jws"), hx_arg(args, "sig"), hx_arg(args, "jwk"),
+                          hx_arg_bool(args, "all", false));
+    return json_pack("{s:b}", "r", r);
+}
+
+/* jws.ver_io {jws, sig?, jwk, all, feeds:[hex]}: streaming verification of a detached payload */
+static json_t *
+op_ver_io(json_t *args)
+{
+    jose_io_t *io = jose_jws_ver_io(NULL, hx_arg(args, "jws"), hx_arg(args, "sig"), hx_arg(args, "jwk"),
+                                    hx_arg_bool(args, "all", false));
+    json_t *feeds = hx_arg(args, "feeds");
+    json_t *res = json_object();
+    json_t *fv = json_array();
+    bool ok = true;
+    size_t i;
+    json_t *f;
+
+    json_object_set_new(res, "io", json_boolean(io != NULL));
+    if (io) {
+        json_array_foreach(feeds, i, f) {
+            size_t len = 0;
+            uint8_t *b = hx_unhex(json_string_value(f), &len);
+            ok = io->feed(io, b, len);
+            free(b);
+            json_array_append_new(fv, json_boolean(ok));
+            if (!ok)
+                break;
+        }
+        json_object_set_new(res, "feeds", fv);
+        json_object_set_new(res, "done", ok ? json_boolean(io->done(io)) : json_null());
+        jose_io_decref(io);
+    } else {
+        json_decref(fv);
+    }
+    return res;
+}
+
+/* jws.sig {jws, sig?, jwk} -> {ok, jws (after), sig (template after)} */
+static json_t *
+op_sig(json_t *args)
+{
+    json_t *jws = json_deep_copy(hx_arg(args, "jws"));
+    json_t *sig = json_deep_copy(hx_arg(args, "sig"));
+    bool ok = jose_jws_sig(NULL, jws, sig, hx_arg(args, "jwk"));
+    json_t *res = json_pack("{s:b}", "ok", ok);
+    if (ok && jws)
+        json_object_set(res, "jws", jws);
+    json_decref(jws);
+    json_decref(sig);
+    return res;
+}
+
+/* jws.sig_io {jws, sig?, jwk, feeds:[hex]}: streaming signature over a detached payload */
+static json_t *
+op_sig_io(json_t *args)
+{
+    json_t *jws = json_deep_copy(hx_arg(args, "jws"));
+    json_t *sig = json_deep_copy(hx_arg(args, "sig"));
+    jose_io_t *io = jose_jws_sig_io(NULL, jws, sig, hx_arg(args, "jwk"));
+    json_t *feeds = hx_arg(args, "feeds");
+    json_t *res = json_object();
+    bool ok = io != NULL;
+    size_t i;
+    json_t *f;
+
+    if (io) {
+        json_array_foreach(feeds, i, f) {
+            size_t len = 0;
+            uint8_t *b = hx_unhex(json_string_value(f), &len);
+            ok = io->feed(io, b, len);
+            free(b);
+            if (!ok)
+                break;
+        }
+        ok = ok && io->done(io);
+        jose_io_decref(io);
+    }
+    json_object_set_new(res, "ok", json_boolean(ok));
+    if (ok && jws)
+        json_object_set(res, "jws", jws);
+    json_decref(jws);
+    json_decref(sig);
+    return res;
+}
+
+const op_t ops_jws[] = {
+    { "jws.ver", op_ver },
+    { "jws.ver_io", op_ver_io },
+    { "jws.sig", op_sig },
+    { "jws.sig_io", op_sig_io },
+    { NULL, NULL }
+};
